@@ -385,8 +385,8 @@ class GroupScores(Scores):
                     )
                     pos.append(group_scores.pos[pos_idx])
                     neg.append(group_scores.neg[neg_idx])
-                    pos_groups.append(np.asarray([group for _ in pos_idx]))
-                    neg_groups.append(np.asarray([group for _ in neg_idx]))
+                    pos_groups.append(np.full(len(pos_idx), group))
+                    neg_groups.append(np.full(len(neg_idx), group))
 
                 scores = GroupScores(
                     pos=np.concatenate(pos),
